@@ -29,7 +29,13 @@ class aggregate_node_transformer(ast.NodeTransformer):
     """
 
     def visit_Call(self, node):
-        if type(node.func) is ast.Name and len(node.args) == 1:
+        # A shortcut has exactly one argument, the sequence: not `Sum(a, start=5)`, not `Sum(*a)`
+        if (
+            type(node.func) is ast.Name
+            and len(node.args) == 1
+            and len(node.keywords) == 0
+            and not isinstance(node.args[0], ast.Starred)
+        ):
             if node.func.id == "len" or node.func.id == "Count":
                 # This is a len(sequence) call, which should be turned into a .Count() call.
                 return _generate_count_call(self.visit(node.args[0]))
